@@ -29,6 +29,7 @@ def work(item):
     hist = item[5] if len(item) > 5 else "fresh"
     flags = runs.flags_of(item[6]) if len(item) > 6 and item[6] else None  # positivity options: clamps are per quantity, the allowed sets stay the same
     builder = netcheck.history_builders()[hist]
+    runs.set_default_history(hist)
     topo = T_.Topo.from_json(tj)
     rng = random.Random(seed)
     acc = netcheck.Acc(topo.name)
